@@ -6,7 +6,8 @@ import mir2smt_str as ms
 from spec import render_enum, spellings, is_ci
 
 
-def run_e2(run, programs, specs, extra_src, user_fns, err_fn_of, known, replay_harness="h_e2_replay"):
+def run_e2(run, programs, specs, extra_src, user_fns, err_fn_of, known, replay_harness="h_e2_replay", derive="EnumString", vcs_of=None, vec_of=None,
+           claim=None):
     import driver
     t0 = time.time()
     cdir = os.path.join(run.cdir, "e2s")
@@ -18,7 +19,7 @@ def run_e2(run, programs, specs, extra_src, user_fns, err_fn_of, known, replay_h
     for sp in specs:
         sp2 = copy.deepcopy(sp)
         sp2.std_derives = ["Debug"]
-        sp2.derives = ["EnumString"]
+        sp2.derives = [derive]
         src.append(render_enum(sp2))
     with open(os.path.join(cdir, "src", "lib.rs"), "w") as f:
         f.write("\n".join(src) + "\n")
@@ -28,7 +29,7 @@ def run_e2(run, programs, specs, extra_src, user_fns, err_fn_of, known, replay_h
                             cwd=cdir, timeout=900, env=env, log=None)
     k = out.find("// WARNING: This output format")
     res = {"queries": 0, "nontrivial": 0, "solver_s": 0.0, "functions": [], "samples": [], "unsupported": [],
-           "claim": "for EVERY input string of any length: the variant reached through from_str's MIR is the reference parser's (payload-is-input / error-is-f(input) tracked symbolically)"}
+           "claim": claim or "for EVERY input string of any length: the variant reached through from_str's MIR is the reference parser's (payload-is-input / error-is-f(input) tracked symbolically)"}
     if rc != 0 or k < 0:
         with open(run.log, "a") as lf:
             lf.write(out[-4000:])
@@ -39,7 +40,10 @@ def run_e2(run, programs, specs, extra_src, user_fns, err_fn_of, known, replay_h
     for sp in specs:
         prog = next((p for p in programs if (" enum %s " % sp.name) in p.enum_src or (" enum %s<" % sp.name) in p.enum_src), None)
         try:
-            vcs, fl = ms.from_str_vcs(fns, sp, lambda v, sp=sp: spellings(sp, v), lambda v, sp=sp: is_ci(sp, v), user_fns, err_fn=err_fn_of(sp))
+            if vcs_of is not None:
+                vcs, fl = vcs_of(fns, sp)
+            else:
+                vcs, fl = ms.from_str_vcs(fns, sp, lambda v, sp=sp: spellings(sp, v), lambda v, sp=sp: is_ci(sp, v), user_fns, err_fn=err_fn_of(sp))
         except m.Unsupported as e:
             res["unsupported"].append("%s: %s" % (sp.name, e))
             continue
@@ -54,13 +58,13 @@ def run_e2(run, programs, specs, extra_src, user_fns, err_fn_of, known, replay_h
                 if len(res["samples"]) < 3:
                     res["samples"].append({"engine": "E2-str", "enum": sp.name, "vc": vc["name"], "what": vc["what"], "verdict": "unsat", "sat_twin": "sat", "solvers": detail})
             elif v == "unsat":
-                if vc["name"].startswith("leaf"):
+                if "leaf" in vc["name"]:
                     pass      # an unreachable leaf (e.g. the arm of an empty enum) proves nothing and claims nothing
                 else:
                     run.machinery.append("E2-str vacuity: sat-twin of %s/%s is %s" % (sp.name, vc["name"], tw))
             elif v == "sat":
                 s = ms.model_string(vc["script"])
-                _counterexample(run, prog, sp, vc, s, known, replay_harness)
+                _counterexample(run, prog, sp, vc, s, known, replay_harness, vec_of)
             else:
                 run.machinery.append("E2-str inconclusive: %s/%s (%s)" % (sp.name, vc["name"], detail))
     res["wall_s"] = round(time.time() - t0, 1)
@@ -69,7 +73,7 @@ def run_e2(run, programs, specs, extra_src, user_fns, err_fn_of, known, replay_h
     return res
 
 
-def _counterexample(run, prog, sp, vc, s, known, replay_harness):
+def _counterexample(run, prog, sp, vc, s, known, replay_harness, vec_of=None):
     import driver
     what = "E2-str VC %s/%s violated (%s) at input %r" % (sp.name, vc["name"], vc["what"], s)
     if prog is None or s is None:
@@ -84,6 +88,8 @@ def _counterexample(run, prog, sp, vc, s, known, replay_harness):
         run.machinery.append(what + " (no replay harness)")
         return
     vec = [bytes([x]) for x in b.ljust(64, b"\0")] + [struct.pack("<Q", len(b))]
+    if vec_of is not None:
+        vec = vec + vec_of(sp, vc)
     replay = fw.native_replay(run.cdir, run.pid, "%s::%s" % (prog.name, h.name), vec, run.log)
     test = {"check": what, "vals": vec}
     if fw.reproduces(replay):
